@@ -59,7 +59,7 @@ theorem recover_of_sim {d : Disk} {s : State} (F m : Nat) (r : Bool) (hs : Sim d
 theorem sim_init (F m : Nat) (r : Bool) (g : Block) : Sim (disk (init F m r g) (roots0 g)) (init F m r g) :=
   ⟨rfl, rfl, rfl, rfl, rfl, rfl, rfl, rfl, fun x hx => by
     simp only [init, List.mem_singleton] at hx
-    rw [hx]; simp [disk, roots0]⟩
+    rw [hx]; simp [disk, roots0], rfl⟩
 
 /-- **Assembly.**  After ANY number `n` of durable writes of a run over a block tree, the disk is
 the image of the in-memory state the run had right after its `n`-th write, and that state is
